@@ -288,6 +288,9 @@ class Normalizer:
             if lib in ("numpy.linalg.solve", "scipy.linalg.solve") and len(node.args) == 2 and not node.keywords:
                 # solve(A, B) == inv(A) @ B
                 return self._matmul([("call", "numpy.linalg.inv", (self.n(node.args[0]),), ()), self.n(node.args[1])])
+            if lib == "numpy.vdot" and len(node.args) == 2 and not node.keywords:
+                # vdot(A, B) == sum(conj(A) * B) == Tr(Dagger(A) @ B)   (vdot conjugates its FIRST argument)
+                return ("call", "numpy.trace", (self._matmul([self._dag(self.n(node.args[0])), self.n(node.args[1])]),), ())
             if lib == "scipy.linalg.inv" and len(node.args) == 1 and not node.keywords:
                 return ("call", "numpy.linalg.inv", (self.n(node.args[0]),), ())
             if lib == "numpy.real" and len(node.args) == 1:
